@@ -1731,4 +1731,328 @@ end
 
 end Graph
 
+/-! ### relabelling with `dict(zip(ks, vs))`; `convert_node_labels_to_integers` -/
+
+namespace Graph
+
+theorem relabelFun_zip {ks vs : List Int} (hn : ks.Nodup) (hl : ks.length = vs.length) {k : Int} (hk : k ∈ ks) :
+    relabelFun (Dict.ofPairs (zip ks vs)) k = vs[ks.idxOf k]'(hl ▸ List.idxOf_lt_length_of_mem hk) := by
+  unfold relabelFun; rw [Dict.get?_ofPairs_zip_of_mem hn hl hk]; rfl
+
+theorem relabelFun_zip_of_not_mem {ks vs : List Int} (hn : ks.Nodup) (hl : ks.length = vs.length) {k : Int}
+    (hk : k ∉ ks) : relabelFun (Dict.ofPairs (zip ks vs)) k = k := by
+  unfold relabelFun
+  rw [Dict.get?_ofPairs_zip hn hl, List.getElem?_eq_none]; rfl
+  rw [← hl, List.idxOf_eq_length_iff.2 hk]
+
+theorem map_relabelFun_zip {ks vs : List Int} (hn : ks.Nodup) (hl : ks.length = vs.length) :
+    ks.map (relabelFun (Dict.ofPairs (zip ks vs))) = vs := by
+  apply List.ext_getElem
+  · simp [hl]
+  · intro i h1 h2
+    rw [List.getElem_map, relabelFun_zip hn hl (List.getElem_mem _)]
+    congr 1
+    exact hn.idxOf_getElem i _
+
+theorem relabelFun_zip_injOn {ks vs : List Int} (hn : ks.Nodup) (hvs : vs.Nodup) (hl : ks.length = vs.length) :
+    ∀ a ∈ ks, ∀ b ∈ ks, relabelFun (Dict.ofPairs (zip ks vs)) a = relabelFun (Dict.ofPairs (zip ks vs)) b → a = b := by
+  intro a ha b hb e
+  rw [relabelFun_zip hn hl ha, relabelFun_zip hn hl hb] at e
+  have := (hvs.getElem_inj_iff).1 e
+  exact (List.idxOf_inj ha).1 this
+
+theorem nodup_range (n : Int) : (range n).Nodup := by
+  unfold range
+  exact List.Nodup.map (fun a b e => by simpa using e) List.nodup_range
+
+theorem length_range (n : Int) : (range n).length = n.toNat := by simp [range]
+
+theorem length_range_numberOfNodes (g : Graph) : (range g.numberOfNodes).length = g.nodeList.length := by
+  rw [length_range, numberOfNodes_eq]; simp
+
+theorem IsRelabel.congr {π π' : Int → Int} {g h : Graph} (hg : g.WF) (r : IsRelabel π g h)
+    (e : ∀ n ∈ g.nodeList, π n = π' n) : IsRelabel π' g h where
+  inj := fun a ha b hb hab => r.inj a ha b hb (by rw [e a ha, e b hb]; exact hab)
+  nodes := by rw [← List.map_congr_left e]; exact r.nodes
+  attrs := fun n hn k => by rw [← e n hn]; exact r.attrs n hn k
+  nbrs := fun n hn => by
+    rw [← e n hn, ← List.map_congr_left (fun v hv => e v (hg.nbr_mem n v hv))]; exact r.nbrs n hn
+  eattrs := fun u hu v hv a ha => by rw [← e u hu, ← e v hv]; exact r.eattrs u hu v hv a ha
+
+/-- relabelling by `dict(zip(ks, vs))` where `ks` lists the nodes (in any order) and `vs` are distinct -/
+theorem relabelCopy_zip_spec {g : Graph} (hg : g.WF) {ks vs : List Int} (hp : ks.Perm g.nodeList)
+    (hvs : vs.Nodup) (hl : ks.length = vs.length) :
+    (g.relabelCopy (Dict.ofPairs (zip ks vs))).WF ∧
+    (g.relabelCopy (Dict.ofPairs (zip ks vs))).nodeList = g.nodeList.map (relabelFun (Dict.ofPairs (zip ks vs))) ∧
+    (g.relabelCopy (Dict.ofPairs (zip ks vs))).nodeList.Perm vs ∧
+    IsRelabel (relabelFun (Dict.ofPairs (zip ks vs))) g (g.relabelCopy (Dict.ofPairs (zip ks vs))) := by
+  have hn : ks.Nodup := hp.nodup_iff.2 hg.nodup_nodeList
+  have inj : ∀ a ∈ g.nodeList, ∀ b ∈ g.nodeList,
+      relabelFun (Dict.ofPairs (zip ks vs)) a = relabelFun (Dict.ofPairs (zip ks vs)) b → a = b :=
+    fun a ha b hb => relabelFun_zip_injOn hn hvs hl a (hp.mem_iff.2 ha) b (hp.mem_iff.2 hb)
+  refine ⟨WF_relabelCopy hg _ inj, nodeList_relabelCopy hg _ inj, ?_, isRelabel_relabelCopy hg _ inj⟩
+  rw [nodeList_relabelCopy hg _ inj]
+  have := (hp.map (relabelFun (Dict.ofPairs (zip ks vs)))).symm
+  rwa [map_relabelFun_zip hn hl] at this
+
+/-- `nx.convert_node_labels_to_integers(G)`: node `i` of the result is the `i`-th node of `G` -/
+theorem convertNodeLabelsToIntegers_spec {g : Graph} (hg : g.WF) :
+    g.convertNodeLabelsToIntegers.WF ∧
+    g.convertNodeLabelsToIntegers.nodeList = range g.numberOfNodes ∧
+    IsRelabel (fun n => Int.ofNat (g.nodeList.idxOf n)) g g.convertNodeLabelsToIntegers ∧
+    (∀ n ∈ g.nodeList, g.convertNodeLabelsToIntegers.node.get? (Int.ofNat (g.nodeList.idxOf n)) = g.node.get? n) := by
+  unfold convertNodeLabelsToIntegers
+  have hl := (length_range_numberOfNodes g).symm
+  have hn := hg.nodup_nodeList
+  obtain ⟨h1, h2, -, h4⟩ := relabelCopy_zip_spec hg (List.Perm.refl _) (nodup_range g.numberOfNodes) hl
+  have hpos : ∀ n ∈ g.nodeList,
+      relabelFun (Dict.ofPairs (zip g.nodeList (range g.numberOfNodes))) n = Int.ofNat (g.nodeList.idxOf n) := by
+    intro n hn'
+    rw [relabelFun_zip hn hl hn']
+    simp [range]
+  refine ⟨h1, ?_, h4.congr hg hpos, fun n hn' => ?_⟩
+  · rw [h2, map_relabelFun_zip hn hl]
+  · rw [← hpos n hn']
+    exact node_get?_relabelCopy hg _
+      (fun a ha b hb => relabelFun_zip_injOn hn (nodup_range _) hl a ha b hb) hn'
+
+end Graph
+
+/-! ### counting bonds: `number_of_edges` is invariant under relabelling -/
+
+namespace Graph
+
+/-- all ordered pairs `(u, v)` with `v` adjacent to `u` -/
+def dirPairs (g : Graph) : List (Int × Int) := g.nodeList.flatMap (fun u => (g.nbrs u).map (fun v => (u, v)))
+/-- nodes with a self-loop -/
+def loopNodes (g : Graph) : List Int := g.nodeList.filter (fun u => decide (u ∈ g.nbrs u))
+
+theorem mem_dirPairs {g : Graph} (hg : g.WF) (u v : Int) : (u, v) ∈ g.dirPairs ↔ v ∈ g.nbrs u := by
+  simp only [dirPairs, List.mem_flatMap, List.mem_map, Prod.mk.injEq]
+  constructor
+  · rintro ⟨u', _, v', hv', rfl, rfl⟩; exact hv'
+  · intro h
+    refine ⟨u, ?_, v, h, rfl, rfl⟩
+    rw [mem_nbrs_iff] at h
+    obtain ⟨a, ha⟩ := Option.isSome_iff_exists.1 h
+    exact hg.left_mem_of_edgeAttrs ha
+
+theorem nodup_dirPairs {g : Graph} (hg : g.WF) : g.dirPairs.Nodup := by
+  unfold dirPairs
+  rw [List.nodup_flatMap]
+  refine ⟨fun u _ => (hg.nodup_nbrs u).map (fun a b e => by simpa using e), ?_⟩
+  refine hg.nodup_nodeList.imp ?_
+  intro a b hab
+  simp only [Function.onFun, List.disjoint_left, List.mem_map]
+  rintro x ⟨v, _, rfl⟩ ⟨v', _, e⟩
+  exact hab (by simpa using (congrArg Prod.fst e).symm)
+
+theorem length_dirPairs (g : Graph) : g.dirPairs.length = (g.nodeList.map (fun u => (g.nbrs u).length)).sum := by
+  simp [dirPairs, List.length_flatMap]
+
+private theorem head_pairs (n : Int) (seen : List Int) (l : List (Int × Attrs)) :
+    (l.filterMap (fun p => if p.1 ∈ seen then none else some (n, p.1, p.2))).map (fun e => (e.1, e.2.1))
+      = ((l.map Prod.fst).filter (fun v => decide (v ∉ seen))).map (fun v => (n, v)) := by
+  induction l with
+  | nil => rfl
+  | cons p l ih =>
+    by_cases h : p.1 ∈ seen
+    · simp [h, ih]
+    · simp [h, ih]
+
+private theorem mem_head (n : Int) (seen : List Int) (l : List (Int × Attrs)) (e : Int × Int × Attrs) :
+    e ∈ l.filterMap (fun p => if p.1 ∈ seen then none else some (n, p.1, p.2)) ↔
+      e.1 = n ∧ (e.2.1, e.2.2) ∈ l ∧ e.2.1 ∉ seen := by
+  simp only [List.mem_filterMap]
+  constructor
+  · rintro ⟨p, hp, h⟩
+    by_cases hs : p.1 ∈ seen
+    · simp [hs] at h
+    · simp only [hs, if_false, Option.some.injEq] at h
+      subst h; exact ⟨rfl, hp, hs⟩
+  · rintro ⟨h1, h2, h3⟩
+    exact ⟨(e.2.1, e.2.2), h2, by simp [h3, ← h1]⟩
+
+theorem nodup_pairs_edgesDataAux (items : List (Int × Dict Int Attrs)) (seen : List Int)
+    (hk : (items.map Prod.fst).Nodup) (hnb : ∀ p ∈ items, p.2.WF) :
+    ((edgesDataAux items seen).map (fun e => (e.1, e.2.1))).Nodup := by
+  induction items generalizing seen with
+  | nil => simp [edgesDataAux]
+  | cons p items ih =>
+    obtain ⟨n, nb⟩ := p
+    simp only [List.map_cons, List.nodup_cons] at hk
+    simp only [edgesDataAux, List.map_append]
+    rw [List.nodup_append]
+    refine ⟨?_, ih _ hk.2 (fun q hq => hnb q (by simp [hq])), ?_⟩
+    · rw [head_pairs]
+      exact ((hnb (n, nb) (by simp)).filter _).map (fun a b e => by simpa using e)
+    · intro x hx y hy hxy
+      subst hxy
+      rw [head_pairs] at hx
+      obtain ⟨v, _, rfl⟩ := List.mem_map.1 hx
+      obtain ⟨e, he, he'⟩ := List.mem_map.1 hy
+      obtain ⟨nb', h1, -, -⟩ := mem_edgesDataAux he
+      have : e.1 = n := by simpa using congrArg Prod.fst he'
+      rw [this] at h1
+      exact hk.1 (List.mem_map.2 ⟨_, h1, rfl⟩)
+
+theorem edgesDataAux_antisymm (items : List (Int × Dict Int Attrs)) (seen : List Int)
+    (hk : (items.map Prod.fst).Nodup) {u v : Int} {a b : Attrs}
+    (h1 : (u, v, a) ∈ edgesDataAux items seen) (hne : u ≠ v) : (v, u, b) ∉ edgesDataAux items seen := by
+  induction items generalizing seen with
+  | nil => simp [edgesDataAux] at h1
+  | cons p items ih =>
+    obtain ⟨n, nb⟩ := p
+    simp only [List.map_cons, List.nodup_cons] at hk
+    simp only [edgesDataAux, List.mem_append] at h1 ⊢
+    rw [mem_head] at h1 ⊢
+    rintro (⟨e1, -, -⟩ | h2)
+    · simp only at e1
+      rcases h1 with ⟨e1', -, -⟩ | h1
+      · simp only at e1'; exact hne (e1'.trans e1.symm)
+      · obtain ⟨_, -, -, h3⟩ := mem_edgesDataAux h1
+        simp only at h3
+        exact h3 (by simp [e1])
+    · rcases h1 with ⟨e1', -, -⟩ | h1
+      · simp only at e1'
+        obtain ⟨_, -, -, h3⟩ := mem_edgesDataAux h2
+        simp only at h3
+        exact h3 (by simp [e1'])
+      · exact ih _ hk.2 h1 h2
+
+/-- the endpoint pairs of `G.edges` -/
+theorem edges_eq (g : Graph) : g.edges = g.edgesData.map (fun e => (e.1, e.2.1)) := rfl
+
+theorem nodup_edges {g : Graph} (hg : g.WF) : g.edges.Nodup :=
+  nodup_pairs_edgesDataAux _ _ hg.adj_wf
+    (fun p hp => hg.nbr_wf p.1 p.2 (Dict.get?_of_mem_items hg.adj_wf hp))
+
+theorem mem_edges_imp {g : Graph} (hg : g.WF) {u v : Int} (h : (u, v) ∈ g.edges) : v ∈ g.nbrs u := by
+  obtain ⟨e, he, he'⟩ := List.mem_map.1 h
+  have := edgeAttrs_of_mem_edgesData hg he
+  simp only [Prod.mk.injEq] at he'
+  rw [he'.1, he'.2] at this
+  rw [mem_nbrs_iff, this]; rfl
+
+theorem mem_edges_of_nbrs {g : Graph} (hg : g.WF) {u v : Int} (h : v ∈ g.nbrs u) :
+    (u, v) ∈ g.edges ∨ (v, u) ∈ g.edges := by
+  rw [mem_nbrs_iff] at h
+  obtain ⟨a, ha⟩ := Option.isSome_iff_exists.1 h
+  rcases mem_edgesData_of_edgeAttrs hg ha with h | h
+  · exact Or.inl (List.mem_map.2 ⟨_, h, rfl⟩)
+  · exact Or.inr (List.mem_map.2 ⟨_, h, rfl⟩)
+
+theorem edges_antisymm {g : Graph} (hg : g.WF) {u v : Int} (h : (u, v) ∈ g.edges) (hne : u ≠ v) :
+    (v, u) ∉ g.edges := by
+  intro h'
+  obtain ⟨e, he, he'⟩ := List.mem_map.1 h
+  obtain ⟨e₂, he₂, he₂'⟩ := List.mem_map.1 h'
+  obtain ⟨u₁, v₁, a⟩ := e
+  obtain ⟨u₂, v₂, b⟩ := e₂
+  simp only [Prod.mk.injEq] at he' he₂'
+  obtain ⟨rfl, rfl⟩ := he'
+  obtain ⟨rfl, rfl⟩ := he₂'
+  exact edgesDataAux_antisymm _ _ hg.adj_wf he hne he₂
+
+/-- handshake: twice the number of bonds = number of adjacency entries + number of self-loops -/
+theorem two_mul_length_edges {g : Graph} (hg : g.WF) :
+    2 * g.edges.length = g.dirPairs.length + g.loopNodes.length := by
+  have hP := nodup_edges hg
+  -- the reversed non-loop bonds
+  let S := (g.edges.filter (fun p => decide (p.1 ≠ p.2))).map Prod.swap
+  have hS : S.Nodup := (hP.filter _).map (fun a b e => by simpa using congrArg Prod.swap e)
+  have hperm : (g.edges ++ S).Perm g.dirPairs := by
+    refine (List.perm_ext_iff_of_nodup ?_ (nodup_dirPairs hg)).2 ?_
+    · rw [List.nodup_append]
+      refine ⟨hP, hS, ?_⟩
+      intro x hx y hy hxy
+      subst hxy
+      obtain ⟨q, hq, rfl⟩ := List.mem_map.1 hy
+      rw [List.mem_filter] at hq
+      exact edges_antisymm hg hq.1 (by simpa using hq.2) (show (q.2, q.1) ∈ g.edges from hx)
+    · rintro ⟨u, v⟩
+      rw [mem_dirPairs hg, List.mem_append]
+      constructor
+      · rintro (h | h)
+        · exact mem_edges_imp hg h
+        · obtain ⟨q, hq, hq'⟩ := List.mem_map.1 h
+          rw [List.mem_filter] at hq
+          obtain ⟨q1, q2⟩ := q
+          simp only [Prod.swap, Prod.mk.injEq] at hq'
+          obtain ⟨rfl, rfl⟩ := hq'
+          exact hg.mem_nbrs_symm (mem_edges_imp hg hq.1)
+      · intro h
+        rcases mem_edges_of_nbrs hg h with h' | h'
+        · exact Or.inl h'
+        · by_cases huv : u = v
+          · subst huv; exact Or.inl h'
+          · right
+            exact List.mem_map.2 ⟨(v, u), List.mem_filter.2 ⟨h', by simpa using fun e => huv e.symm⟩, rfl⟩
+  have hloops : (g.edges.filter (fun p => decide (p.1 = p.2))).Perm (g.loopNodes.map (fun u => (u, u))) := by
+    refine (List.perm_ext_iff_of_nodup (hP.filter _) ?_).2 ?_
+    · exact (hg.nodup_nodeList.filter _).map (fun a b e => by simpa using e)
+    · rintro ⟨u, v⟩
+      simp only [List.mem_filter, decide_eq_true_eq, List.mem_map, loopNodes, Prod.mk.injEq]
+      constructor
+      · rintro ⟨h, rfl⟩
+        have := mem_edges_imp hg h
+        exact ⟨u, ⟨hg.nbr_mem u u this, this⟩, rfl, rfl⟩
+      · rintro ⟨w, ⟨_, hw⟩, rfl, rfl⟩
+        rcases mem_edges_of_nbrs hg hw with h | h <;> exact ⟨h, rfl⟩
+  have h1 := hperm.length_eq
+  have h2 := hloops.length_eq
+  simp only [List.length_append, List.length_map, S] at h1 h2
+  have h3 : (g.edges.filter (fun p => decide (p.1 = p.2))).length
+      + (g.edges.filter (fun p => decide (p.1 ≠ p.2))).length = g.edges.length := by
+    have := List.length_eq_length_filter_add (l := g.edges) (fun p => decide (p.1 = p.2))
+    rw [this]
+    congr 2
+    apply List.filter_congr
+    intro x _; simp
+  omega
+
+theorem numberOfEdges_eq (g : Graph) : g.numberOfEdges = (g.edges.length : Int) := by
+  simp [numberOfEdges, edges]
+
+/-- a relabelling preserves the number of bonds -/
+theorem IsRelabel.numberOfEdges_eq {π : Int → Int} {g h : Graph} (r : IsRelabel π g h) (hg : g.WF) (hh : h.WF) :
+    h.numberOfEdges = g.numberOfEdges := by
+  have hd : h.dirPairs.length = g.dirPairs.length := by
+    rw [length_dirPairs, length_dirPairs]
+    rw [(r.nodes.map (fun u => (h.nbrs u).length)).sum_eq, List.map_map]
+    congr 1
+    apply List.map_congr_left
+    intro n hn
+    simp only [Function.comp]
+    rw [(r.nbrs n hn).length_eq, List.length_map]
+  have hl : h.loopNodes.length = g.loopNodes.length := by
+    unfold loopNodes
+    rw [← List.countP_eq_length_filter, ← List.countP_eq_length_filter, r.nodes.countP_eq, List.countP_map]
+    apply List.countP_congr
+    intro n hn
+    simp only [Function.comp, decide_eq_true_eq]
+    rw [(r.nbrs n hn).mem_iff, List.mem_map]
+    constructor
+    · rintro ⟨v, hv, e⟩
+      rwa [r.inj v (hg.nbr_mem n v hv) n hn e] at hv
+    · intro h'; exact ⟨n, h', rfl⟩
+  have h1 := two_mul_length_edges hg
+  have h2 := two_mul_length_edges hh
+  rw [Graph.numberOfEdges_eq, Graph.numberOfEdges_eq]
+  omega
+
+theorem IsRelabel.numberOfNodes_eq {π : Int → Int} {g h : Graph} (r : IsRelabel π g h) :
+    h.numberOfNodes = g.numberOfNodes := by
+  rw [Graph.numberOfNodes_eq, Graph.numberOfNodes_eq, r.nodes.length_eq, List.length_map]
+
+theorem numberOfEdges_relabelCopy {g : Graph} (hg : g.WF) (mapping : Dict Int Int)
+    (inj : ∀ a ∈ g.nodeList, ∀ b ∈ g.nodeList, relabelFun mapping a = relabelFun mapping b → a = b) :
+    (g.relabelCopy mapping).numberOfEdges = g.numberOfEdges :=
+  (isRelabel_relabelCopy hg mapping inj).numberOfEdges_eq hg (WF_relabelCopy hg mapping inj)
+
+theorem numberOfEdges_copy {g : Graph} (hg : g.WF) : g.copy.numberOfEdges = g.numberOfEdges :=
+  (same_copy hg).numberOfEdges_eq hg (WF_copy hg)
+
+end Graph
+
 end Py
